@@ -2,7 +2,7 @@
 """Runs every seeded change under /verif/seeded against the checks named in its meta.json (scratch copy,
 quick tier) and records which checks raise a VIOLATION.  usage: tools/run_seeds.py [ID-N ...]"""
 import json, os, subprocess, sys, glob, time
-V="/verif"
+V=os.path.dirname(os.path.dirname(os.path.abspath(__file__)))
 ids=sys.argv[1:] or sorted(os.path.basename(d) for d in glob.glob(V+"/seeded/C*"))
 results=json.load(open(V+"/seeded/RESULTS.json")) if os.path.exists(V+"/seeded/RESULTS.json") else {}
 head=subprocess.run(["git","-C","/repo","rev-parse","--short","HEAD"],capture_output=True,text=True).stdout.strip()
@@ -20,7 +20,7 @@ for sid in ids:
     for line in out.splitlines():
         if line.startswith("REASON"): pending.append(line[:300])
         if line.startswith("== "):
-            c=line.split()[1]; code=line.split("exit=")[1]
+            c=line.split()[1]; code=line.split("exit=")[1].strip()
             det[c]={"exit":int(code),"detected":code=="1"}
             if pending: det[c]["first_reason"]=pending[0]
             pending=[]
